@@ -1,6 +1,12 @@
 """Texts for MANIFEST.json, one entry per claimed property (others are listed as not_applicable)."""
 NOT_BUILT = 'check not built yet in this session (see DESIGN.md section 9 for the build order)'
 CLAIMS = {
+ 'C15': {
+  'category': 'other',
+  'text': 'Contracts on the real registration code, proved for all inputs: the cds_list primitives are position independent (add/del/move/splice relink exactly the neighbours; del needs no list head, so it removes the node from whichever list - registry, cur_snap_readers, qsreaders - currently holds it; splice keeps what the destination already held); rcu_register_thread / rcu_unregister_thread of memb, mb and qsbr are exactly one insertion / removal of the own node inside one rcu_registry_lock critical section, other readers untouched, qsbr goes offline before taking the lock and online after releasing it; bp expand_arena never moves or rewrites an existing chunk or slot (mremap never MAYMOVE; in-place doubling or a new chunk of twice the capacity, exactly the new byte range cleared). Bounded, reported apart: bp arena_alloc over every occupancy of an 8-slot chunk (first free slot reused, full => exactly one expansion, no allocated slot handed out), bp lazy registration / thread-exit unregistration (all signals blocked and registry lock held around slot allocation and list insertion, mask and lock restored, already-registered => no-op), and the real synchronize_rcu + wait_for_readers of memb/mb with a thread registering while the grace period has dropped the registry lock (afterwards the registry holds the scanned reader and the new one, each once).',
+  'note': 'Assumed: sequential meaning of the primitives, pthread/mmap/mremap/sigmask stubs with ghost state (mmap returns fresh zeroed memory, mremap without MAYMOVE fails or grows in place; memset is logged and its byte range checked instead of performed). Not decided: that each grace period waits for exactly the registered threads over all interleavings of (un)registration with both scan phases (schedule quantifier) - only the per-function premises and one bounded registering-thread scenario are checked; arenas of more than two chunks.',
+  'technique': 'contract-based deductive verification (CBMC contracts on symbolic list neighbourhoods, ghost lock/signal-mask state) of per-function premises; bounded harnesses for arena scans and registration during a grace period',
+ },
  'C14': {
   'category': 'proof',
   'text': 'Monitor-invariant proof over the real start_poll/poll_state/worker-callback code of all four flavor TUs, for all 2^64 counter values incl. wrap-around and an arbitrary witness handle: poll_state returns true only after a callback queued at/after the handle\'s issue has completed, false only while a callback is pending, and once true stays true. Unbounded (loop-free, full-domain symbolic inputs).',
